@@ -2,10 +2,9 @@ package sim
 
 import (
 	"fmt"
+	"os"
 	"sort"
 	"strings"
-	"testing"
-	"testing/synctest"
 )
 
 // ---- C14: I/O failures are reported, contained and recovered from ----------
@@ -55,13 +54,26 @@ func faultPostRun(r *Run, res *Result) {
 				cases = append(cases, faultCase{At: map[int]string{op.Idx: k}, Desc: fmt.Sprintf("%s on op %d (%s %s by %s)", k, op.Idx, op.Op, fileName(op.Kind, op.ID), op.Actor)})
 			}
 		}
+		// a load issued by a client actor happens only inside OpenWriter /
+		// OpenReader; a fault there is the listed known finding (silent
+		// fall-back to an older snapshot) and is only ever placed alone
+		openLoad := func(i int) bool {
+			return i >= 0 && i < len(ops) && ops[i].Op == "load" && strings.HasPrefix(ops[i].Actor, "client")
+		}
 		// sticky: a span of consecutive operations fails (disk full for a while)
 		for c := 0; c < 4 && len(ops) > 8; c++ {
 			from := int(rng.Next() % uint64(len(ops)-4))
 			span := 2 + int(rng.Next()%6)
 			at := map[int]string{}
+			skip := false
 			for i := from; i < from+span; i++ {
 				at[i] = "dir-error"
+				if openLoad(i) {
+					skip = true
+				}
+			}
+			if skip {
+				continue
 			}
 			cases = append(cases, faultCase{At: at, Desc: fmt.Sprintf("sticky dir-error on ops %d..%d", from, from+span-1)})
 		}
@@ -73,7 +85,7 @@ func faultPostRun(r *Run, res *Result) {
 		for c := 0; c < np && len(ops) > 4; c++ {
 			i := int(rng.Next() % uint64(len(ops)))
 			j := int(rng.Next() % uint64(len(ops)))
-			if i == j {
+			if i == j || openLoad(i) || openLoad(j) {
 				continue
 			}
 			ki, kj := faultKindsFor(ops[i], true), faultKindsFor(ops[j], true)
@@ -84,7 +96,7 @@ func faultPostRun(r *Run, res *Result) {
 			cases = append(cases, faultCase{At: at, Desc: fmt.Sprintf("pair %v", at)})
 		}
 		// quick tier: a seeded subset of the single placements on long traces
-		max := 160
+		max := 100
 		if thorough {
 			max = 1500
 		}
@@ -107,7 +119,7 @@ func faultPostRun(r *Run, res *Result) {
 		pp.PostRun = nil
 		pp.MaxWindows = r.stats.Windows*4 + 3000
 		child := newRun(&pp, tape, scratch())
-		child.plan = &FaultPlan{AtOp: fc.At}
+		child.plan = &FaultPlan{AtOp: fc.At, NoOpenLoad: len(fc.At) > 1}
 		func() {
 			defer func() {
 				if pv := recover(); pv != nil {
@@ -117,7 +129,7 @@ func faultPostRun(r *Run, res *Result) {
 					}
 				}
 			}()
-			synctest.Test(curT, func(t *testing.T) { child.Execute() })
+			runBubble(curT, child)
 		}()
 		faultRuns++
 		res.Stats.Windows += child.stats.Windows
@@ -159,6 +171,30 @@ func faultPostRun(r *Run, res *Result) {
 				}
 			}
 		}
+		if v != nil && len(fc.At) == 1 && r.faultReplay == nil {
+			// a single fault on a load issued inside OpenWriter/OpenReader:
+			// reported as an observation (the driver matches it against the
+			// known findings; unmatched it is a violation) so that the other
+			// placements of this base run are still tried
+			single := -1
+			for i := range fc.At {
+				single = i
+			}
+			if single >= 0 && single < len(ops) && ops[single].Op == "load" && strings.HasPrefix(ops[single].Actor, "client") {
+				msg := fmt.Sprintf("[fault: %s; fired %d] %s", fc.Desc, fired, v.Msg)
+				dup := false
+				for _, o := range res.Observations {
+					if o.Oracle == v.Oracle {
+						dup = true
+					}
+				}
+				if !dup {
+					res.Observations = append(res.Observations, Violation{Oracle: v.Oracle, Msg: msg, Win: v.Win})
+				}
+				res.Stats.Probes["open-load-fault-fell-back"]++
+				continue
+			}
+		}
 		if v != nil {
 			vv := *v
 			vv.Msg = fmt.Sprintf("[fault: %s; fired %d] %s", fc.Desc, fired, vv.Msg)
@@ -166,7 +202,11 @@ func faultPostRun(r *Run, res *Result) {
 			res.Extra["fault_case"] = fc
 			res.Extra["fault_ops"] = child.opsLog
 			var tl []string
-			for _, e := range tailEvents(child.s, 60) {
+			tailN := 60
+			if v := os.Getenv("BSIM_LOGTAIL"); v != "" {
+				fmt.Sscanf(v, "%d", &tailN)
+			}
+			for _, e := range tailEvents(child.s, tailN) {
 				tl = append(tl, e.String())
 			}
 			res.Extra["fault_log_tail"] = tl
@@ -185,6 +225,15 @@ func (r *Run) faultSurfaced() string {
 	for _, op := range r.trace.Ops {
 		if op.Inject == "" {
 			continue
+		}
+		closing := false
+		for _, sp := range r.closeSpans {
+			if op.Win >= sp[0] && op.Win <= sp[1] {
+				closing = true
+			}
+		}
+		if closing {
+			continue // the writer was being closed: the work is abandoned, nothing is owed
 		}
 		if (op.Actor == "persister" || op.Actor == "merger") && (op.Op == "persist" || op.Op == "load") && op.Err != "" {
 			bg = append(bg, fmt.Sprintf("%s on %s %s by %s", op.Inject, op.Op, fileName(op.Kind, op.ID), op.Actor))
